@@ -75,7 +75,7 @@ enum { N_SECRET, N_PHRASE, N_PASSWORD, N_MASK, N_INDICES, N_WORDPTR, N_NKIND };
 static const char* const NKIND[] = { "secret-bytes", "phrase-text", "password", "mask", "word-indices", "word-pointers" };
 typedef struct needle { uint8_t b[160]; int n; int kind; int variant, cstart, crun, cwidth; } needle;
 #define MAXNEEDLE 1024
-typedef struct nset { needle v[MAXNEEDLE]; int n; unsigned coeff[2][16]; bool have_coeff; } nset;
+typedef struct nset { needle v[MAXNEEDLE]; int n; unsigned coeff[4][16]; bool have_coeff; } nset;
 
 static void add(nset* S, int kind, const void* b, int n) {
     if (S->n >= MAXNEEDLE || n > 160 || n <= 0) return;
@@ -135,12 +135,15 @@ static int enc_run(const unsigned* c, int start, int run, int width, uint8_t* ou
 }
 static void add_coeffs(nset* S, const unsigned with_coin[16], const unsigned without_coin[16]) {
     memcpy(S->coeff[0], with_coin, sizeof S->coeff[0]); memcpy(S->coeff[1], without_coin, sizeof S->coeff[1]); S->have_coeff = true;
+    /* variants 2 and 3: the 10 secret bits each word carries, i.e. the index shifted right by one ("shares"): an unpacked copy of the
+     * secret in that form is the secret just as well */
+    for (int i = 0; i < 16; ++i) { S->coeff[2][i] = with_coin[i] >> 1; S->coeff[3][i] = without_coin[i] >> 1; }
     static const int W[3] = { 8, 4, 2 }, RUN[3] = { 2, 2, 4 };
-    for (int var = 0; var < 2; ++var) for (int w = 0; w < 3; ++w) for (int st = 0; st + RUN[w] <= 16; ++st) {
+    for (int var = 0; var < 4; ++var) for (int w = 0; w < 3; ++w) for (int st = (var >= 2 ? 1 : 0); st + RUN[w] <= 16; ++st) {
         const unsigned* c = S->coeff[var];
         bool zero = false; for (int i = 0; i < RUN[w]; ++i) if (c[st + i] == 0) zero = true;
         if (zero) continue;
-        if (var == 1 && (st > 1 || st + RUN[w] <= 1)) continue;       /* identical to variant 0 unless the run covers word 2 */
+        if ((var & 1) && (st > 1 || st + RUN[w] <= 1)) continue;       /* identical to the with-coin variant unless the run covers word 2 */
         if (S->n >= MAXNEEDLE) return;
         needle* x = &S->v[S->n++]; memset(x, 0, sizeof *x);
         x->n = enc_run(c, st, RUN[w], W[w], x->b); x->kind = N_INDICES; x->variant = var; x->cstart = st; x->crun = RUN[w]; x->cwidth = W[w];
